@@ -134,7 +134,7 @@ def run_scenario(run, e4, sc):
     wc, signame, graceful = sc["class"], sc["signal"], sc["graceful"]
     phases = sc["phases"]
     nblock = len(phases)
-    settings = {"graceful_timeout": graceful, "timeout": 30, "keepalive": 5}
+    settings = {"graceful_timeout": graceful, "timeout": sc.get("timeout", 30), "keepalive": 5}
     if wc == "gthread":
         settings["threads"] = 6
     if sc.get("worker_connections"):
@@ -309,10 +309,15 @@ def run_scenario(run, e4, sc):
                 if not e4.complete_response(data) or not e4.body_of(data).endswith(b"|END") or e4.status_of(data) != 200:
                     v.append(("in-flight-request-not-answered/" + p,
                               "%s worker, phase %s: request in progress at TERM (application finishes %.1fs later, graceful "
-                              "timeout %ds) got %r (%s)" % (wc, p, sc.get("app_delay", 0.3), graceful, data[:120],
-                                                            r.get("outcome") or r.get("err"))))
+                              "timeout %ds, worker timeout %ss) got %r (%s)" % (wc, p, sc.get("app_delay", 0.3), graceful,
+                                                                              settings["timeout"], data[:120],
+                                                                              r.get("outcome") or r.get("err"))))
                 else:
                     run.count("in_flight_answered")
+                if "timeout" in sc:
+                    # the worker timeout (heartbeat supervision) is not the graceful timeout: disabled (0), or shorter than both the
+                    # graceful timeout and the request, it has no say in how long a stopping server waits for a request
+                    run.count("worker_timeout_%s_in_flight_checks" % ("disabled" if not sc["timeout"] else "below_graceful"))
             else:
                 # INT/QUIT or overrun/never: no promise about the response, but a partial *head* is still wrong framing
                 pass
@@ -370,6 +375,17 @@ def scenarios(tier, seed):
     for wc in ("eventlet", "gevent"):
         out.append({"class": wc, "signal": "TERM", "bind": r3.choice(["tcp", "unix"]), "graceful": 6, "phases": ["idle", "app", "stream"],
                     "duration": "finishes", "app_delay": r3.choice([2.0, 2.5]), "workers": 1, "worker_connections": 2, "idle_last": True})
+    # the worker timeout is a different setting from the graceful timeout: `timeout = 0` (documented: no heartbeat supervision at
+    # all) with a request in flight at TERM, and - for the worker classes whose heartbeat does not depend on the request - a worker
+    # timeout shorter than the graceful timeout with a request that needs longer than the worker timeout after TERM
+    r4 = rng_for(seed, "c04-worker-timeout")
+    for wc in (classes if tier == "thorough" else ["sync", r4.choice(classes[1:])]):
+        out.append({"class": wc, "signal": "TERM", "bind": r4.choice(["tcp", "unix"]), "graceful": 6, "timeout": 0,
+                    "phases": ["partial", "app", "stream"] if wc == "sync" else ["app", "stream"], "duration": "finishes",
+                    "app_delay": r4.choice([1.0, 1.5, 2.0])})
+    for wc in classes[1:]:
+        out.append({"class": wc, "signal": "TERM", "bind": r4.choice(["tcp", "unix"]), "graceful": 8, "timeout": 2,
+                    "phases": ["app", "stream"], "duration": "finishes", "app_delay": r4.choice([3.2, 3.6])})
     if tier == "thorough":
         for s2 in range(5):
             r2 = rng_for(seed, "c04-thorough", s2)
@@ -398,14 +414,14 @@ def shard(sh):
             break
         run.count("retries_after_inconclusive")
     run.case(json.dumps({k: sc.get(k) for k in ("class", "signal", "bind", "phases", "duration", "graceful", "partial_delay", "busy_on", "retire", "pidfile_garbage",
-                                                 "reload_graceful", "worker_connections", "workers")}, sort_keys=True))
+                                                 "reload_graceful", "worker_connections", "workers", "timeout")}, sort_keys=True))
     run.count("scenarios")
     run.count("class/" + sc["class"])
     run.count("signal/" + sc["signal"])
     run.count("bind/" + sc["bind"])
     for mech, summary in v:
         run.violation(mech, summary + " | scenario=%s info=%s" % ({k: sc[k] for k in ("class", "signal", "bind", "phases", "duration", "graceful", "reload_graceful", "worker_connections",
-                                                                         "workers") if k in sc}, info), sc)
+                                                                         "workers", "timeout") if k in sc}, info), sc)
     if reason is not None and not v:
         if "scheduling lag" in reason:
             run.count("cells_skipped_for_scheduling_lag")      # measured lag made the wall-clock judgement unsafe, three times
@@ -421,13 +437,17 @@ def main(tier, seed):
                 "class/eventlet", "signal/TERM", "signal/INT", "bind/tcp", "bind/unix",
                 "cell/partial/sync/TERM", "cell/app/gthread/TERM", "cell/stream/gevent/TERM", "cell/app/eventlet/TERM",
                 "two_listener_in_flight_checks", "graceful_raised_by_reload_checks", "graceful_lowered_by_reload_checks",
-                "pool_full_at_stop_checks/eventlet")
+                "pool_full_at_stop_checks/eventlet", "worker_timeout_disabled_in_flight_checks",
+                "worker_timeout_below_graceful_in_flight_checks")
     scs = scenarios(tier, seed)
     shards = [{"scenario": sc, "seed": seed, "tier": tier} for sc in scs]
     run.assumptions = [
         "slack: master exit is late only beyond graceful_timeout (TERM) or 2 s (INT/QUIT) plus 3 s, and only when the measured scheduling lag is below 0.5 s",
         "phases are established by handshake (phase log / release files) before the signal is sent; a connection that is idle or keep-alive idle carries no request in progress",
         "TLS, reuse_port and systemd socket activation are not part of the scenarios",
+        "worker timeout cells: `timeout` 0 (supervision disabled) for every class; `timeout` 2 s below graceful_timeout 8 s with a request "
+        "that ends 3.2-3.6 s after TERM only for gthread / gevent / eventlet (a sync worker busy for longer than `timeout` is killed by "
+        "the supervision itself, before any shutdown - C11's subject)",
         "after a reload that changes graceful_timeout the value in force is the reloaded one (judged only once every worker of the "
         "pool was started by that reload); the lowered-by-reload cell is a wall-clock judgement and is skipped under scheduling lag",
     ]
